@@ -110,6 +110,7 @@ def load_cases(seed, start, count):
             "expect": dec(d["expect"]),
             "gate": "" if d["gate"] == "-" else d["gate"],
             "what": dec(d["what"]),
+            "sel": dec(d.get("sel", "%")),
         }
         cases.append(c)
     return cases
@@ -143,7 +144,7 @@ class Plan:
         lines.append("capture_out " + cap_out)
         lines.append("capture_err " + cap_err)
         lines.append("trace " + trace)
-        lines.append("case id=%d kind=%s expect=%s what=%s" % (c["id"], c["kind"], enc(c["expect"]), enc(c["what"])))
+        lines.append("case id=%d kind=%s expect=%s sel=%s what=%s" % (c["id"], c["kind"], enc(c["expect"]), enc(c.get("sel", "")), enc(c["what"])))
         lines.append("casedoc " + c["doc"].hex())
         lines.append("caseargv " + " ".join(enc(a) for a in c["argv"]))
         lines.append("oracle %s fault=%s" % (self.oracle, self.fault))
@@ -200,6 +201,11 @@ def strip_ws(canon):
     return re.sub(r'T\("((?:[^"\\]|\\.)*)"\)', fix, canon)
 
 
+def wrap_w(out):
+    """the nodes xq printed, as the content of one element"""
+    return b"<w>" + out + b"</w>"
+
+
 def canon_batch(items):
     """items: list of (key, bytes) -> {key: ("ok", canon) | ("err", msg)}"""
     if not items:
@@ -247,6 +253,16 @@ def o3(case, res, canon):
         want = case["expect"].encode("utf-8", "surrogateescape")
         if res["out"] != want:
             return "xq printed %r but the selection (%s) serialises to %r" % (res["out"][:300], case["what"], want[:300])
+        if case.get("sel") and canon is not None:
+            # the printed text, read back, denotes the selected nodes of the generator's tree
+            st, c = canon
+            if st != "ok":
+                return "the output of xq does not parse back: %s (output %r)" % (c[:200], res["out"][:300])
+            wsel = case["sel"]
+            if "--no-indent" not in case["argv"]:
+                c, wsel = strip_ws(c), strip_ws(wsel)
+            if c != wsel:
+                return "xq (%s) printed text that denotes %s, the selected nodes are %s" % (case["what"], c[:400], wsel[:400])
         return None
     if kind in ("canon", "canonws"):
         if canon is None:
@@ -374,6 +390,8 @@ def run_case(args):
         return out
     if case["kind"] in ("canon", "canonws") and base["rc"] == 0:
         out["need_canon"] = base["out"]
+    elif case["kind"] == "stdout" and case.get("sel") and base["rc"] == 0:
+        out["need_canon"] = wrap_w(base["out"])
     elif case["kind"] != "any":
         v = o3(case, base, None)
         if v:
@@ -423,7 +441,7 @@ def load_known():
 
 
 def parse_plan(path):
-    case = {"id": 0, "tool": "xq", "argv": [], "doc": b"", "kind": "any", "expect": "", "what": "", "gate": ""}
+    case = {"id": 0, "tool": "xq", "argv": [], "doc": b"", "kind": "any", "expect": "", "what": "", "gate": "", "sel": ""}
     plan = {"argv": [], "doc": b"", "ins": [], "outs": [], "open": "ok", "stat": "real", "oracle": "O2", "fault": "none"}
     for line in open(path, encoding="utf-8", errors="surrogateescape"):
         line = line.rstrip("\n")
@@ -453,6 +471,8 @@ def parse_plan(path):
                     case["expect"] = dec(v)
                 elif k == "what":
                     case["what"] = dec(v)
+                elif k == "sel":
+                    case["sel"] = dec(v)
         elif key == "casedoc":
             case["doc"] = bytes.fromhex(rest)
         elif key == "caseargv":
@@ -477,6 +497,8 @@ def evaluate_plan(case, plan, wd, release=False):
         canon = None
         if case["kind"] in ("canon", "canonws") and base["rc"] == 0:
             canon = canon_batch([("k", base["out"])]).get("k")
+        elif case["kind"] == "stdout" and case.get("sel") and base["rc"] == 0:
+            canon = canon_batch([("k", wrap_w(base["out"]))]).get("k")
         return o3(case, base, canon)
     if plan.fault.endswith("+schedule"):
         ref = execute(Plan(case, doc=plan.doc, oracle="O2T", fault="ref"), wd, release)
